@@ -2,6 +2,8 @@
 From Coq Require Import String List Bool.
 From PM Require Import Semiring Poly Rel Analysis Calculus An_stmts.
 From PM Require An_closed An_witness.
+From PM Require Import Poly_times Rel_sem.
+From PM Require An_extra.
 Import ListNotations.
 
 (* infinite: relation only when run-to-completion was requested; not infinite: relation present and the
@@ -42,7 +44,74 @@ Theorem C15_choices_exactly_relation_infinities_refuted :
     fst (derive_func An_witness.f_lost [2; 0]) = None.
 Proof. exact An_witness.choices_stricter_than_relation. Qed.
 
+(* "the problematic-flow description names only variable pairs whose matrix entry can be infinite".
+   [An_extra.infty_vars_incl only r] is Relation.infty_vars(only_incl) (dictionary source -> targets, as a
+   list; Analysis.func passes the individually infinite variables as only_incl; [] = no filter = Rel.infty_vars).
+   For the relation of ANY result of the analysis (infinite or not, either mode): every listed source has a
+   non-empty target list, and for every listed pair the matrix entry has a monomial with scalar infinity
+   and evaluates to infinity at some assignment of alternatives 0..2 to the sites; the filter keeps only
+   pairs that touch only_incl *)
+Theorem C15_inf_flows_pairs_can_be_infinite :
+  forall f stop res r only src l tgt,
+    func_ok f -> analyse f stop = ROk res -> fr_rel res = Some r ->
+    In (src, l) (An_extra.infty_vars_incl only r) -> In tgt l ->
+    l <> [] /\ In src (rvars r) /\ In tgt (rvars r) /\
+    (only = [] \/ In src only \/ In tgt only) /\
+    some_infty (cell r src tgt) = true /\
+    (exists m, In m (cell r src tgt) /\ sc m = I) /\
+    (exists c, (forall i, c i < 3) /\ rval r c src tgt = I).
+Proof. exact An_extra.inf_flows_of_result. Qed.
+
+Theorem C15_inf_flows_unfiltered :
+  forall f stop res r src l tgt,
+    func_ok f -> analyse f stop = ROk res -> fr_rel res = Some r ->
+    In (src, l) (infty_vars r) -> In tgt l ->
+    l <> [] /\ In src (rvars r) /\ In tgt (rvars r) /\
+    some_infty (cell r src tgt) = true /\
+    (exists m, In m (cell r src tgt) /\ sc m = I) /\
+    (exists c, (forall i, c i < 3) /\ rval r c src tgt = I).
+Proof. exact An_extra.inf_flows_of_result_unfiltered. Qed.
+
+(* the same by position, for an arbitrary relation (no well-formedness): row i / column j of the matrix *)
+Theorem C15_inf_flows_positions : forall only r src l,
+  In (src, l) (An_extra.infty_vars_incl only r) ->
+  l <> [] /\
+  exists i row, nth_error (rvars r) i = Some src /\ nth_error (rmat r) i = Some row /\
+    forall tgt, In tgt l ->
+      exists j p, nth_error (rvars r) j = Some tgt /\ nth_error row j = Some p /\
+                  p = mget (rmat r) i j /\ some_infty p = true /\
+                  (only = [] \/ In src only \/ In tgt only).
+Proof. exact An_extra.infty_vars_incl_positions. Qed.
+
+(* nothing is forgotten (well-formed relation), the unfiltered description is the case only_incl = [],
+   and filtering only drops targets *)
+Theorem C15_inf_flows_complete : forall only r src tgt,
+  wf_rel r -> In src (rvars r) -> In tgt (rvars r) -> some_infty (cell r src tgt) = true ->
+  (only = [] \/ In src only \/ In tgt only) ->
+  exists l, In (src, l) (An_extra.infty_vars_incl only r) /\ In tgt l.
+Proof. exact An_extra.infty_vars_incl_complete. Qed.
+
+Theorem C15_inf_flows_no_filter : forall r, An_extra.infty_vars_incl [] r = infty_vars r.
+Proof. exact An_extra.infty_vars_incl_nil. Qed.
+
+Theorem C15_inf_flows_filter_drops : forall only r src l,
+  In (src, l) (An_extra.infty_vars_incl only r) -> exists l', In (src, l') (infty_vars r) /\ incl l l'.
+Proof. exact An_extra.infty_vars_incl_sub. Qed.
+
+(* what "has an infinite monomial" means: a satisfiable one makes the polynomial infinite at a choice *)
+Theorem C15_some_infty_meaning :
+  forall p, (some_infty p = true <-> exists m, In m p /\ sc m = I) /\
+            (forall m, In m p -> sc m = I -> msat m -> exists c, val p c = I).
+Proof. exact An_extra.some_infty_meaning. Qed.
+
 Print Assumptions C15_which_fields_are_present.
 Print Assumptions C15_modes_equal_when_not_infinite.
 Print Assumptions C15_choices_are_the_derivable_vectors.
 Print Assumptions C15_choices_exactly_relation_infinities_refuted.
+Print Assumptions C15_inf_flows_pairs_can_be_infinite.
+Print Assumptions C15_inf_flows_unfiltered.
+Print Assumptions C15_inf_flows_positions.
+Print Assumptions C15_inf_flows_complete.
+Print Assumptions C15_inf_flows_no_filter.
+Print Assumptions C15_inf_flows_filter_drops.
+Print Assumptions C15_some_infty_meaning.
